@@ -553,6 +553,19 @@ def run_in_subprocess(universes: List[dict], seed: int, hashseed: int) -> List[d
     return json.loads(p.stdout)
 
 
+def model_says(term: str) -> str:
+    """The model's verdict for one case, for messages (frameworks 0..3 = FW_NAMES, classes by index)."""
+    from lib import vlib
+    try:
+        out = vlib.coq_eval("C10", "says", REQ, EXTRA + f"\nDefinition the_case : {CASE_TY} := {term}.\n"
+                            "Eval vm_compute in (let '((e, u, rq), _) := the_case in "
+                            "(resolve e u rq, map (fun p => cid (fst p)) (survivors e rq u))).")
+        m = re.search(r"=\s*(.*?)\s*:\s*result \* list nat", out, re.S)
+        return " ".join(m.group(1).split()) if m else out[-200:]
+    except Exception as e:  # noqa: BLE001
+        return f"(model evaluation failed: {e})"
+
+
 def run(rep: Any, tier: str, seed: int) -> None:
     from lib import vlib
     rng = random.Random(seed * 7919 + 10)
@@ -598,7 +611,9 @@ def run(rep: Any, tier: str, seed: int) -> None:
         u, c = all_cases[i]
         rep.finding(f"e2e:{json.dumps([u['classes'], u['orders'][c['k']], u['requests'][c['ri']]], sort_keys=True)}",
                     f"resolution observed through mloda.prepare/run ({c['obs']}) differs from the modelled rule "
-                    f"(unique admissible group after preferring same-framework subclasses; table type admissible)",
+                    f"(unique admissible group after preferring same-framework subclasses; table type admissible); "
+                    f"model: {model_says(terms[i])}; classes {json.dumps(u['classes'])} created in order {u['orders'][c['k']]}, "
+                    f"request {json.dumps(u['requests'][c['ri']])}",
                     {"kind": "e2e", "universe": u, "k": c["k"], "ri": c["ri"], "env": c["env"], "obs": c["obs"]})
         found = True
 
@@ -632,7 +647,8 @@ def run(rep: Any, tier: str, seed: int) -> None:
         found = True
 
     # ---- classification for the evidence (Coq side: the kf domain; Python side: everything else)
-    kf_idx, _ = vlib.run_cases("C10", "kf", REQ, "not_in_kf", terms[: len(cases)], case_type=CASE_TY, extra_defs=EXTRA, shard=400)
+    n_kf = min(len(cases), 9000)
+    kf_idx, _ = vlib.run_cases("C10", "kf", REQ, "not_in_kf", terms[:n_kf], case_type=CASE_TY, extra_defs=EXTRA, shard=400)
     kf_rej = sum(1 for i in kf_idx if cases[i][1]["obs"].get("err") == "EMultiple")
     outcome: Dict[str, int] = {}
     for u, c in all_cases:
@@ -663,10 +679,14 @@ def run(rep: Any, tier: str, seed: int) -> None:
                     "chosen_with_several_admissible_frameworks": len(tab_variety),
                     "of_those_seen_on_more_than_one_table_type": sum(1 for v in tab_variety.values() if len(v) > 1)})
     rep.add("order_independence", {"requests_compared": len(by_req), "unstable": len(unstable),
-                                   "runs_per_request": n_orders + (len(hs) * n_orders if hs_univ else 0)})
-    rep.add("kf_fw_mismatch_domain", {"cases_in_domain": len(kf_idx), "of_those_rejected_as_multiple": kf_rej,
-                                      "note": "parent/child both admissible with different usable framework sets: the implementation "
-                                              "keeps both (Coq: C10_literal_preference_refuted); counted, not a verdict"})
+                                   "runs_per_request_main_process": n_orders,
+                                   "requests_also_run_under_other_hash_seeds": len(hs_univ) * n_req,
+                                   "extra_runs_per_such_request": len(hs) * n_orders})
+    rep.add("kf_fw_mismatch_domain", {"cases_classified": n_kf, "cases_in_domain": len(kf_idx),
+                                      "of_those_rejected_as_multiple": kf_rej,
+                                      "note": "admissible parent and child with different usable framework sets: the implementation "
+                                              "keeps both and rejects (Coq: C10_unconditional_preference_refuted); rejection is "
+                                              "allowed by the property, so this is counted, not a verdict"})
     rep.add("doc", {**dinfo, "cases": len(docs), "disagreements": len(dbad),
                     "resolved": sum(1 for _, c in docs if c["obs"][0] == "some"),
                     "multiple": sum(1 for _, c in docs if c["obs"][0] == "multi")})
